@@ -606,7 +606,7 @@ fn momentum_activity_on_imposed_path(c: &AgentCase) -> Result<u64, Failure> {
         }
     }
     let decay = match decay_milli % 8 { 0 => 500, 1 => 250, 2 => 750, 3 => 125, _ => *decay_milli };
-    let mc = MomCase { market: c.market, asset: c.asset, tick: c.tick, level_k: c.mid_k.clamp(500, 90_000), path, widen: vec![], n: *n, p_cancel: *p_cancel, trade_vol: *trade_vol, decay_milli: decay, demand_milli: *demand_milli, scale_milli: *scale_milli, ratio_milli: *ratio_milli, mu_milli: *mu_milli, sigma_milli: *sigma_milli, seed: c.id_start as u64 ^ ((c.mid_k as u64) << 32) };
+    let mc = MomCase { market: c.market, asset: c.asset, tick: c.tick, level_k: c.mid_k.clamp(500, 90_000), path, widen: vec![], n: *n, p_cancel: *p_cancel, trade_vol: *trade_vol, decay_milli: decay, demand_milli: *demand_milli, scale_milli: *scale_milli, ratio_milli: *ratio_milli, mu_milli: *mu_milli, sigma_milli: *sigma_milli, seed: c.id_start as u64 ^ ((c.mid_k as u64) << 32), one_sided: 0 };
     let (classes, _, res) = run_mom(&mc);
     let updates = classes.iter().find(|x| x.0 == "updates").map_or(0, |x| x.1);
     match res {
@@ -748,6 +748,10 @@ pub struct MomCase {
     pub mu_milli: i32,
     pub sigma_milli: u32,
     pub seed: u64,
+    /// 0 = the harness quotes both sides; 1 = bids only, 2 = asks only (the mid-price of a one-sided book is
+    /// 0.5 * (best price + empty-side sentinel): it moves with the quote like any other mid-price)
+    #[serde(default)]
+    pub one_sided: u8,
 }
 
 #[derive(Clone, Debug)]
@@ -787,11 +791,15 @@ fn mom_run(c: &MomCase, mirror: bool) -> Vec<UpdateRec> {
                 e.step(&mut rng);
             }
             let vol = 10_000_000 + k as u32;
-            if let Ok(id) = e.place_order(a, true, vol, HARNESS_TRADER, Some(qb)) {
-                quotes.push(id);
+            if c.one_sided != 2 {
+                if let Ok(id) = e.place_order(a, true, vol, HARNESS_TRADER, Some(qb)) {
+                    quotes.push(id);
+                }
             }
-            if let Ok(id) = e.place_order(a, false, vol, HARNESS_TRADER, Some(qa)) {
-                quotes.push(id);
+            if c.one_sided != 1 {
+                if let Ok(id) = e.place_order(a, false, vol, HARNESS_TRADER, Some(qa)) {
+                    quotes.push(id);
+                }
             }
             e.step(&mut rng);
         }
@@ -933,6 +941,7 @@ fn run_mom(c: &MomCase) -> (Vec<(&'static str, u64)>, bool, Result<(), Failure>)
         ("sell_orders", sells),
         ("updates_compared_with_mirror_run", compared),
         ("mirror_comparisons_stopped_mids_diverged", diverged),
+        ("cases_with_harness_quotes_on_one_side_only", (c.one_sided != 0) as u64),
     ];
     (classes, sat_up >= 1 && sat_down >= 1, res)
 }
@@ -961,7 +970,9 @@ pub fn mom_case_strategy() -> BoxedStrategy<MomCase> {
             let n = if path.len() > 64 { n.min(4) } else { n };
             // keep the whole path, the quotes around it and their mirror images inside the price range
             let level_k = level_k.min((u32::MAX - 1) / tick - 1_000);
-            MomCase { market, asset, tick, level_k, path, widen, n, p_cancel, trade_vol, decay_milli, demand_milli, scale_milli, ratio_milli, mu_milli, sigma_milli, seed }
+            // one case in ten: the harness quotes one side only
+            let one_sided = match (seed >> 17) % 20 { 0 => 1, 1 => 2, _ => 0 };
+            MomCase { market, asset, tick, level_k, path, widen, n, p_cancel, trade_vol, decay_milli, demand_milli, scale_milli, ratio_milli, mu_milli, sigma_milli, seed, one_sided }
         })
         .boxed()
 }
